@@ -233,3 +233,201 @@ package nutsdb
 //@   ensures[C22] modeMismatch(opt.EntryIdxMode, opt.Dir) && dirListable(opt.Dir) ==> result1 != nil && result0 == nil && fsMut <= old(fsMut) + 1
 //@   modifies everything
 //@   safety[C20,C22] panics
+
+// ---------------------------------------------------------------------------
+// Transactions: pending writes (C10, C12, C20)
+// pendingOK is the type invariant of Tx: what put establishes for every buffered entry and Commit relies on.
+//@ spec func pendingEach(tx *Tx) bool = forall i int :: 0 <= i && i < len(tx.pendingWrites) ==>
+//@        allocated(tx.pendingWrites[i]) && entryWF(tx.pendingWrites[i]) && allocated(tx.pendingWrites[i].Meta) &&
+//@        tx.pendingWrites[i].Meta.status == UnCommitted && tx.pendingWrites[i].Meta.txID == tx.id
+//@ spec func pendingDistinct(tx *Tx) bool = forall i int, j int :: 0 <= i && i < j && j < len(tx.pendingWrites) ==>
+//@        tx.pendingWrites[i] != tx.pendingWrites[j] && tx.pendingWrites[i].Meta != tx.pendingWrites[j].Meta
+//@ spec func pendingOK(tx *Tx) bool = pendingEach(tx) && pendingDistinct(tx)
+//@ spec func samePending(tx *Tx) bool = tx.pendingWrites == old(tx.pendingWrites)
+
+//@ func Tx.checkTxIsClosed
+//@   requires tx != nil
+//@   ensures (tx.db == nil ==> result == ErrTxClosed) && (tx.db != nil ==> result == nil)
+//@   modifies nothing
+//@   safety[C20] panics
+//@   pure
+
+//@ func Tx.put
+//@   requires tx != nil
+//@   requires len(key) + len(value) + len(bucket) + 42 < 4294967296
+//@   ensures[C12,C20] old(tx.db) == nil ==> result == ErrTxClosed && samePending(tx)
+//@   ensures[C12] old(tx.db) != nil && !tx.writable ==> result == ErrTxNotWritable && samePending(tx)
+//@   ensures[C12] old(tx.db) != nil && tx.writable && len(key) == 0 ==> result == ErrKeyEmpty && samePending(tx)
+//@   ensures[C12] old(tx.db) != nil && tx.writable && len(key) > 0 ==> result == nil
+//@   ensures[C10,C12] result == nil ==> len(tx.pendingWrites) == old(len(tx.pendingWrites)) + 1 &&
+//@        (forall i int :: 0 <= i && i < old(len(tx.pendingWrites)) ==> tx.pendingWrites[i] == old(tx.pendingWrites[i]))
+//@   ensures[C10,C21] result == nil ==> fresh(tx.pendingWrites[old(len(tx.pendingWrites))]) && fresh(tx.pendingWrites[old(len(tx.pendingWrites))].Meta) &&
+//@        entryWF(tx.pendingWrites[old(len(tx.pendingWrites))]) &&
+//@        tx.pendingWrites[old(len(tx.pendingWrites))].Meta.txID == tx.id && tx.pendingWrites[old(len(tx.pendingWrites))].Meta.status == UnCommitted &&
+//@        tx.pendingWrites[old(len(tx.pendingWrites))].Meta.Flag == flag && tx.pendingWrites[old(len(tx.pendingWrites))].Meta.ds == ds &&
+//@        tx.pendingWrites[old(len(tx.pendingWrites))].Meta.TTL == ttl && tx.pendingWrites[old(len(tx.pendingWrites))].Meta.timestamp == timestamp &&
+//@        tx.pendingWrites[old(len(tx.pendingWrites))].Key == key && tx.pendingWrites[old(len(tx.pendingWrites))].Value == value &&
+//@        string(tx.pendingWrites[old(len(tx.pendingWrites))].Meta.bucket) == bucket
+//@   ensures[C10] old(pendingOK(tx)) && result == nil ==> pendingEach(tx)
+//@   ensures[C10] old(pendingOK(tx)) && result == nil ==> pendingDistinct(tx)
+//@   modifies tx.pendingWrites, elems(tx.pendingWrites)
+//@   safety[C20] panics
+
+// ---------------------------------------------------------------------------
+// Commit (C10, C11, C12, C14, C01). Ghost state:
+//   unsynced      number of file writes not yet followed by a successful Sync
+//   lastWriteOff  offset of the most recent data-file WriteAt
+//   idxMut        counts mutations of the in-memory indexes (applier calls)
+//   lockMode      0 none, 1 read lock, 2 write lock on DB.mu
+//@ spec ghost unsynced int
+//@ spec ghost lastWriteOff int64
+//@ spec ghost idxMut int
+//@ spec ghost lockMode int
+
+//@ extern sync.RWMutex.Lock (m)
+//@   ensures lockMode == 2
+//@   modifies lockMode
+//@ extern sync.RWMutex.Unlock (m)
+//@   requires lockMode == 2
+//@   ensures lockMode == 0
+//@   modifies lockMode
+//@ extern sync.RWMutex.RLock (m)
+//@   ensures lockMode == 1
+//@   modifies lockMode
+//@ extern sync.RWMutex.RUnlock (m)
+//@   requires lockMode == 1
+//@   ensures lockMode == 0
+//@   modifies lockMode
+
+//@ func RWManager.WriteAt (rw, b, off) (n, err)
+//@   ensures 0 <= n && n <= len(b) && (err == nil ==> n == len(b))
+//@   ensures unsynced == old(unsynced) + 1 && lastWriteOff == off
+//@   modifies unsynced, lastWriteOff
+//@ func RWManager.Sync (rw) (err)
+//@   ensures err == nil ==> unsynced == 0
+//@   ensures err != nil ==> unsynced == old(unsynced)
+//@   modifies unsynced
+//@ func RWManager.Close (rw) (err)
+//@   modifies nothing
+
+//@ spec func fileOK(df *DataFile) bool = df != nil && df.rwManager != nil && df.writeOff == df.ActualSize && df.ActualSize >= 0
+//@ spec func dbOK(db *DB) bool = db != nil && fileOK(db.ActiveFile) && db.BPTreeIdx != nil && db.committedTxIds != nil && db.BPTreeKeyEntryPosMap != nil &&
+//@        db.SetIdx != nil && db.ListIdx != nil && db.SortedSetIdx != nil && db.opt.SegmentSize > 0
+//@ spec func dbStable(db *DB) bool = db.opt == old(db.opt) && db.BPTreeIdx == old(db.BPTreeIdx) && db.committedTxIds == old(db.committedTxIds) &&
+//@        db.SetIdx == old(db.SetIdx) && db.ListIdx == old(db.ListIdx) && db.SortedSetIdx == old(db.SortedSetIdx) && db.isMerging == old(db.isMerging) &&
+//@        db.closed == old(db.closed) && db.KeyCount == old(db.KeyCount)
+
+//@ func NewDataFile
+//@   assumed opens or creates the segment file through the OS; not verified
+//@   ensures err == nil ==> fresh(df) && df.rwManager != nil && df.writeOff == 0 && df.ActualSize == 0
+//@   ensures err != nil ==> df == nil
+//@   modifies nothing
+
+//@ func BPTree.WriteNodes
+//@   assumed writes the node file of a sealed segment (BFS over the tree, package-level queue); sync behaviour is not verified here
+//@   ensures syncEnable ==> unsynced == old(unsynced)
+//@   modifies alltype(Node), alltype(BPTree), queue, unsynced
+//@ func BPTreeRootIdx.Persistence
+//@   assumed writes the root index record through the OS
+//@   ensures syncEnable ==> unsynced == old(unsynced)
+//@   modifies unsynced
+
+//@ func Tx.rotateActiveFile
+//@   requires tx != nil && tx.db != nil && tx.db.ActiveFile != nil && tx.db.ActiveFile.rwManager != nil && tx.ReservedStoreTxIDIdxes != nil
+//@   requires tx.db.opt.EntryIdxMode == HintBPTSparseIdxMode ==> tx.db.ActiveBPTreeIdx != nil && tx.db.ActiveCommittedTxIdsIdx != nil
+//@   requires tx.db.BPTreeKeyEntryPosMap != nil
+//@   ensures[C10] result == nil ==> fresh(tx.db.ActiveFile) && tx.db.ActiveFile.rwManager != nil && tx.db.ActiveFile.writeOff == 0 &&
+//@        tx.db.ActiveFile.ActualSize == 0 && tx.db.ActiveFile.fileID == tx.db.MaxFileID && tx.db.MaxFileID == old(tx.db.MaxFileID) + 1
+//@   ensures[C11] tx.db.opt.SyncEnable && old(unsynced) == 0 ==> unsynced == 0
+//@   ensures dbStable(tx.db) && tx.db == old(tx.db) && lastWriteOff == old(lastWriteOff)
+//@   ensures tx.db.opt.EntryIdxMode != HintBPTSparseIdxMode ==> tx.db.BPTreeKeyEntryPosMap == old(tx.db.BPTreeKeyEntryPosMap)
+//@   ensures tx.db.BPTreeKeyEntryPosMap != nil
+//@   ensures tx.db.opt.EntryIdxMode == HintBPTSparseIdxMode ==> tx.db.ActiveBPTreeIdx != nil && tx.db.ActiveCommittedTxIdsIdx != nil
+//@   ensures result != nil ==> tx.db.ActiveFile == old(tx.db.ActiveFile) || tx.db.ActiveFile == nil
+//@   modifies tx.db.MaxFileID, tx.db.ActiveFile, tx.db.BPTreeRootIdxes, elems(tx.db.BPTreeRootIdxes), tx.db.BPTreeKeyEntryPosMap, tx.db.ActiveBPTreeIdx, tx.db.ActiveCommittedTxIdsIdx,
+//@        entries(tx.ReservedStoreTxIDIdxes), alltype(Node), alltype(BPTree), queue, unsynced
+//@   safety[C20] panics
+
+// ---- strconv2 (decimal text of integers): itoa is injective and atoi inverts it
+//@ spec func itoa(n int64) string
+//@ spec func atoiOK(s string) bool
+//@ spec func atoi(s string) int64
+//@ spec axiom itoaInv: forall n int64 :: atoiOK(itoa(n)) && atoi(itoa(n)) == n
+//@ extern github.com/xujiajun/utils/strconv2.Int64ToStr (value) (s)
+//@   ensures s == itoa(value)
+//@   modifies nothing
+//@   pure
+//@ extern github.com/xujiajun/utils/strconv2.IntToStr (value) (s)
+//@   ensures s == itoa(value)
+//@   modifies nothing
+//@   pure
+//@ extern github.com/xujiajun/utils/strconv2.StrToInt (str) (n, err)
+//@   ensures (err == nil <==> atoiOK(str)) && (err == nil ==> n == atoi(str))
+//@   modifies nothing
+//@   pure
+//@ extern github.com/xujiajun/utils/strconv2.StrToInt64 (str) (n, err)
+//@   ensures (err == nil <==> atoiOK(str)) && (err == nil ==> n == atoi(str))
+//@   modifies nothing
+//@   pure
+
+//@ func BPTree.Insert
+//@   assumed B+ tree insertion (global ordering invariant is covered by the bounded stand-in BS1, not by contracts)
+//@   requires t != nil && h != nil && h.meta != nil
+//@   modifies alltype(BPTree), alltype(Node), alltype(Record)
+
+//@ func Tx.buildBPTreeIdx
+//@   requires tx != nil && tx.db != nil && tx.db.ActiveFile != nil && entry != nil && entry.Meta != nil && tx.db.BPTreeIdx != nil
+//@   requires tx.db.opt.EntryIdxMode == HintBPTSparseIdxMode ==> tx.db.ActiveBPTreeIdx != nil
+//@   at entry: bump idxMut
+//@   ensures idxMut == old(idxMut) + 1
+//@   ensures[C04] forall b string :: b != bucket ==> has(tx.db.BPTreeIdx, b) == old(has(tx.db.BPTreeIdx, b)) && tx.db.BPTreeIdx[b] == old(tx.db.BPTreeIdx[b])
+//@   ensures tx.db.opt.EntryIdxMode != HintBPTSparseIdxMode ==> has(tx.db.BPTreeIdx, bucket) && tx.db.BPTreeIdx[bucket] != nil
+//@   modifies entries(tx.db.BPTreeIdx), alltype(BPTree), alltype(Node), alltype(Record), idxMut
+//@   safety[C20] panics
+
+//@ func Tx.buildIdxes
+//@   assumed applies the set / sorted-set / list records of the transaction to the in-memory indexes (appliers are under contract separately)
+//@   requires tx != nil && tx.db != nil
+//@   ensures writesLen > 0 ==> idxMut > old(idxMut)
+//@   ensures tx.db.KeyCount == old(tx.db.KeyCount) + writesLen
+//@   modifies tx.db.KeyCount, entries(tx.db.SetIdx), entries(tx.db.ListIdx), entries(tx.db.SortedSetIdx), alltype(list.List), alltype(set.Set), alltype(zset.SortedSet), idxMut
+
+//@ func Tx.buildTxIDRootIdx
+//@   assumed sparse mode: records the committed tx id in the active / reserved tx-id trees and their files
+//@   ensures tx.db.opt.SyncEnable ==> unsynced == old(unsynced)
+//@   modifies alltype(BPTree), alltype(Node), alltype(Record), queue, unsynced
+//@ func Tx.buildBucketMetaIdx
+//@   assumed sparse mode: persists the bucket key range
+//@   ensures tx.db.opt.SyncEnable ==> unsynced == old(unsynced)
+//@   modifies entries(tx.db.bucketMetas), alltype(BucketMeta), unsynced
+
+//@ func Tx.Commit
+//@   requires tx != nil && (tx.db != nil ==> dbOK(tx.db) && pendingOK(tx) && tx.ReservedStoreTxIDIdxes != nil)
+//@   requires tx.db != nil ==> (tx.writable ==> lockMode == 2) && (!tx.writable ==> lockMode == 1)
+//@   requires tx.db != nil && tx.db.opt.SyncEnable ==> unsynced == 0
+//@   requires tx.db != nil && tx.db.opt.EntryIdxMode == HintBPTSparseIdxMode ==> tx.db.ActiveBPTreeIdx != nil && tx.db.ActiveCommittedTxIdsIdx != nil && tx.db.bucketMetas != nil
+//@   ensures[C12,C20] old(tx.db) == nil ==> result == ErrDBClosed
+//@   ensures[C14] result == nil && old(tx.db) != nil ==> lockMode == 0 && tx.db == nil
+//@   ensures[C14] result != nil ==> lockMode == old(lockMode) && tx.db == old(tx.db)
+//@   ensures[C11] result == nil && old(tx.db) != nil && old(tx.db.opt.SyncEnable) ==> unsynced == 0
+//@   ensures[C12] result != nil ==> idxMut == old(idxMut)
+//@   ensures[C12] result != nil && old(tx.db) != nil ==> old(tx.db).KeyCount == old(tx.db.KeyCount)
+//@   modifies everything
+//@   safety[C20] panics
+//@   loops 1
+//@   loop 1: invariant 0 <= i && i <= writesLen && tx == old(tx) && tx.db == old(tx.db) && tx.db != nil && writesLen == len(tx.pendingWrites) && lastIndex == writesLen - 1
+//@   loop 1: invariant tx.pendingWrites == old(tx.pendingWrites) && tx.id == old(tx.id) && tx.writable == old(tx.writable) && lockMode == old(lockMode)
+//@   loop 1: invariant dbOK(tx.db) && tx.db.opt == old(tx.db.opt) && tx.ReservedStoreTxIDIdxes != nil
+//@   loop 1: invariant tx.db.opt.EntryIdxMode == HintBPTSparseIdxMode ==> tx.db.ActiveBPTreeIdx != nil && tx.db.ActiveCommittedTxIdsIdx != nil && tx.db.bucketMetas != nil
+//@   loop 1: invariant[C10] forall j int :: i <= j && j < writesLen ==> allocated(tx.pendingWrites[j]) && entryWF(tx.pendingWrites[j]) && allocated(tx.pendingWrites[j].Meta) &&
+//@        tx.pendingWrites[j].Meta.status == UnCommitted && tx.pendingWrites[j].Meta.txID == tx.id
+//@   loop 1: invariant pendingDistinct(tx)
+//@   loop 1: invariant[C11] tx.db.opt.SyncEnable ==> unsynced == 0
+//@   loop 1: invariant[C12] tx.db.KeyCount == old(tx.db.KeyCount)
+//@   loop 1: invariant i == 0 ==> idxMut == old(idxMut) && tx.db.ActiveFile == old(tx.db.ActiveFile) && tx.db.MaxFileID == old(tx.db.MaxFileID)
+//@   at call WriteAt: assert[C10] entry.Meta.txID == tx.id && (i == lastIndex ==> entry.Meta.status == Committed) && (i != lastIndex ==> entry.Meta.status == UnCommitted) &&
+//@        tx.db.ActiveFile.writeOff == tx.db.ActiveFile.ActualSize && tx.db.ActiveFile.ActualSize + entrySize <= tx.db.opt.SegmentSize
+//@   at call buildBPTreeIdx: assert[C01,C19] off == lastWriteOff && tx.db.ActiveFile.writeOff == off + entrySize
+//@   at return #3: assert[C12] i == 0 ==> tx.db.ActiveFile == old(tx.db.ActiveFile) && tx.db.MaxFileID == old(tx.db.MaxFileID)
+//@   at return #5: assert[C10,C12] tx.db.ActiveFile.writeOff == off && tx.db.ActiveFile.ActualSize == off
+//@   at return #6: assert[C10,C12] tx.db.ActiveFile.writeOff == off && tx.db.ActiveFile.ActualSize == off
